@@ -5,7 +5,7 @@ NOTES = ("Solver-based checking of the real code: z3 decides, per program skelet
 ENGINES = [
     {"name": "E4 leaf", "path": "vlib/xh.py", "kind_free_text":
         "CrossHair (symbolic execution of Python with z3) on generated harness modules: shape-concrete, data-symbolic; verdicts parsed per condition, counterexamples replayed concretely",
-     "serves_properties": ["C14", "C28"]},
+     "serves_properties": ["C14", "C28", "C34"]},
     {"name": "E5 shadow", "path": "vlib/sym.py + vlib/leaf.py", "kind_free_text":
         "proxy values over z3 terms (reals, log values, ints, strings) driven through the real functions by a DFS path driver; builtins shadowed as module globals",
      "serves_properties": ["C12"]},
@@ -82,4 +82,8 @@ CHECKS["C28"] = dict(engine="E4 leaf (CrossHair, vlib/xh.py)", category="other",
     technique="CrossHair symbolic execution (z3 strings/ints) of the real py2pl/pl2py and problog_export conversion wrappers per value shape; counterexamples replayed concretely",
     text="Per value shape (nested lists/tuples of length 0-3, depth <= 3) with symbolic int leaves and symbolic string leaves of length <= 3 over the full alphabet, CrossHair confirms over all paths that pl2py(py2pl(v)) equals v with equal types, and that a value returned by an exported function (-int/-str/-list) is read back unchanged as an input of the same type - or returns a concrete value that is replayed.",
     note="Shapes enumerated; strings <= 3 characters; floats only on concrete witnesses (decimal rounding in Constant is not encoded). Three known findings (keys: tuple as last element of a tuple; exported str with leading/trailing double quote; floats with more than 15 decimals).")
+CHECKS["C34"] = dict(engine="E4 leaf (CrossHair, vlib/xh.py)", category="other",
+    technique="CrossHair symbolic execution (z3) of the real OrderedSet / UHeap / BitVector against executable abstract models, one condition per operation-kind sequence with symbolic items, keys and indices",
+    text="Operation-kind sequences are enumerated (OrderedSet and BitVector: all of length <= 2 plus a seeded sample of length 3; UHeap: push/pop/peek sequences of length 2-5 over three items); items (3-element domain), heap keys ([0,3]) and bit indices (block-boundary points 0,31,32,63,64; single operations over [0,70)) are symbolic. After every operation the real container must agree with its model (iteration order, reversed order, length, membership, popped element; min-key extraction and non-decreasing drain order; set contents, len, truth value).",
+    note="The order of the result of OrderedSet '&' is not asserted (collections.abc iterates the right operand); only its contents. 'Not confirmed' conditions (some 4-argument BitVector pairs) are inconclusive. Items/indices are concretised per path by an if-chain, so the solver enumerates value combinations of the stated finite domains.")
 NOT_APPLICABLE = {"C30": "check file exists (props/c30.py) but its triage is unfinished: it reports violations on the unchanged tree that have not been classified, so the property is not claimed"}
